@@ -330,7 +330,8 @@ def rayleigh_bounded_instance():
     def make(B):
         return {'D': B.choose('D', [2, 3, 4, 6, 8]), 'lead': B.choose('lead', [(), (3,), (2, 2)]),
                 'use_eig': B.choose('use_eig', [False, True]), 'scaling': B.choose('scaling', [None, 'trace', 'eigenvalue']),
-                'seed': B.choose('seed', list(range(1000))), 'd': B.given('d', np.zeros(1))}
+                'seed': B.choose('seed', list(range(1000))), 'd': B.given('d', np.zeros(1)),
+                'real': B.choose('real', ['none', 'none', 'target', 'noise', 'both']), 'zero_bin': B.choose('zero_bin', [False, False, True])}
 
     def call(inp):
         rng = np.random.RandomState(inp['seed'])
@@ -342,6 +343,11 @@ def rayleigh_bounded_instance():
         Bm = cn(*lead, D, D)
         tgt = A @ np.conj(np.swapaxes(A, -1, -2)) + 0.05 * np.eye(D)
         noi = Bm @ np.conj(np.swapaxes(Bm, -1, -2)) + 0.1 * np.eye(D)
+        # PSD matrices given as float arrays (real symmetric) next to complex Hermitian ones
+        if inp['real'] in ('target', 'both'):
+            tgt = np.ascontiguousarray(tgt.real)
+        if inp['real'] in ('noise', 'both'):
+            noi = np.ascontiguousarray(noi.real)
         res = {'tgt': tgt, 'noi': noi, 'probes': cn(20, *lead, D)}
         res['gev'] = bf.get_gev_vector(tgt, noi, use_eig=inp['use_eig'])
         res['pca'] = bf.get_pca_vector(tgt, scaling=inp['scaling'])
@@ -349,6 +355,8 @@ def rayleigh_bounded_instance():
         res['ban_scaled'] = bf.blind_analytic_normalization(res['gev'] * 7.3, noi)
         steer = cn(*lead, D)
         r1 = steer[..., :, None] * np.conj(steer[..., None, :]) * 2.5
+        if inp['zero_bin'] and lead:
+            r1[(0,) * len(lead)] = 0          # a silent bin: the rank-one estimate of the zero matrix is the zero matrix
         res['steer'] = steer
         res['r1_pca'] = bw.get_pca_rank_one_estimate(r1)
         res['r1_gev'] = bw.get_gev_rank_one_estimate(r1 + 0.0, noi)
@@ -378,7 +386,10 @@ def rayleigh_bounded_instance():
             r = out[key]
             yield key + '-hermitian', bool(np.allclose(r, np.conj(np.swapaxes(r, -1, -2)), atol=1e-9))
             yield key + '-trace-preserved', bool(np.allclose(np.trace(r, axis1=-1, axis2=-2), np.trace(out['r1'], axis1=-1, axis2=-2), rtol=1e-8))
-            yield key + '-rank-one', bool(np.all(np.linalg.svd(r, compute_uv=False)[..., 1] < 1e-8 * np.linalg.svd(r, compute_uv=False)[..., 0]))
+            yield key + '-finite', bool(np.all(np.isfinite(r)))
+            if np.all(np.isfinite(r)):
+                sv = np.linalg.svd(r, compute_uv=False)
+                yield key + '-rank-one', bool(np.all(sv[..., 1] <= 1e-8 * sv[..., 0]))
         yield 'pca-rank-one-recovers-exact-rank-one-target', bool(np.allclose(out['r1_pca'], out['r1'], rtol=1e-7, atol=1e-9))
 
     return Instance('C12', BF + 'get_gev_vector', 'bounded-rayleigh-probes', make, call, ensures, mode='bounded', bounded_n=120, frame=False)
